@@ -51,6 +51,7 @@ theorem lookup_mem {α β} [BEq α] [LawfulBEq α] : ∀ (l : List (α × β)) (
 theorem CHandler.step_cfg (c : CHandler) (s : Step) : (c.step s).1.cfg = c.cfg := by
   cases s with
   | start a => rfl
+  | answer k => rfl
   | finish k => simp only [CHandler.step]; split <;> rfl
 
 /-- **concurrent_results_are_attempt_results.** -/
@@ -72,6 +73,10 @@ theorem concurrent_results_are_attempt_results : ∀ (ss : List Step) (c : CHand
         · simp only [List.mem_singleton, Prod.mk.injEq] at hm
           exact .inr (by rw [hm.2]; simp)
       · exact .inr (List.mem_cons_of_mem _ hm)
+    | answer k =>
+      simp only [CHandler.step] at h ih
+      obtain ⟨a', hm, hr⟩ := ih h
+      exact ⟨a', hm.imp id (List.mem_cons_of_mem _), hr⟩
     | finish k =>
       simp only [CHandler.step] at h ih
       cases hl : c.flight.lookup k with
@@ -137,6 +142,25 @@ example (hc : HConfig) (a b : Attempt) (iss : Url) (h : ∀ u, a.fetchV u = .res
   rw [h u] at hh
   cases hh
 
+/-- **answer_is_invisible**: the return of the fetcher of any attempt — its checks, its token request —
+changes nothing on the handler and reports nothing: every schedule has the results and the final state
+of the schedule without its `answer` steps. -/
+theorem answer_is_invisible : ∀ (ss : List Step) (c : CHandler),
+    c.run ss = c.run (ss.filter fun s => match s with | .answer _ => false | _ => true)
+  | [], _ => rfl
+  | s :: ss, c => by
+    cases s with
+    | answer k =>
+      simp only [List.filter_cons, Bool.false_eq_true, if_false]
+      simp only [CHandler.run, CHandler.step]
+      exact answer_is_invisible ss c
+    | start a =>
+      simp only [List.filter_cons, if_true, CHandler.run]
+      rw [answer_is_invisible ss]
+    | finish k =>
+      simp only [List.filter_cons, if_true, CHandler.run]
+      rw [answer_is_invisible ss]
+
 /-- **concurrent_failed_attempt_keeps_token_source**: a `finish` step whose attempt installs nothing
 (any failed check) leaves the token source served unchanged; one that installs serves ITS source. -/
 theorem concurrent_failed_attempt_keeps_token_source (c : CHandler) (k : Nat) (R : Result)
@@ -162,6 +186,7 @@ theorem concurrent_served_token_installed_by_a_finished_attempt : ∀ (ss : List
     · rw [h1]
       cases s with
       | start a => exact .inl rfl
+      | answer k => exact .inl rfl
       | finish k =>
         simp only [CHandler.step]
         cases hl : c.flight.lookup k with
@@ -257,10 +282,12 @@ theorem attemptResult_mcase (hc : HConfig) (k : Nat) (t : TAttempt) :
 
 inductive TStep
   | start (t : TAttempt)
+  | answer (k : Nat)
   | finish (k : Nat)
 
 def TStep.step : TStep → Step
   | .start t => .start t.attempt
+  | .answer k => .answer k
   | .finish k => .finish k
 
 /-- **monitor_accepts_schedule.** Over ANY schedule of starts and finishes of well-formed attempts on a
@@ -279,6 +306,7 @@ theorem monitor_accepts_schedule (hc : HConfig) (ts : List TStep) (k : Nat) (R :
   · obtain ⟨s, hs, he⟩ := List.mem_map.1 hm
     cases s with
     | finish j => cases he
+    | answer j => cases he
     | start t =>
       simp only [TStep.step, Step.start.injEq] at he
       subst he
